@@ -77,7 +77,8 @@ func newPSWorld(r *prng.R, s *out.Sink, n, t, msgLen int) *psWorld {
 		parties[i] = uint16(i + 1)
 	}
 	d := newDkgRun("ps", parties, t, msgLen)
-	d.run(r.Fork(), parties, 120*time.Second)
+	d.reorder = r.Intn(3) != 0
+	d.run(r.Fork(), parties, 30*time.Second)
 	w := &psWorld{n: n, t: t, msgLen: msgLen, parties: parties, shares: map[uint16][]byte{}}
 	desc := fmt.Sprintf("ps DKG n=%d t=%d msgLen=%d schedule %s", n, t, msgLen, d.describe())
 	for _, id := range parties {
@@ -481,7 +482,115 @@ func psPure(r *prng.R, s *out.Sink) {
 			}
 		}
 		s.Distinct["pure|"+desc] = struct{}{}
+		psBinding(r, s, l, &pp, pk, σ, &secret, pok, desc)
 	}
+}
+
+// psBinding: alterations that keep every verification equation true for the challenge the honest object was made
+// with — a response shifted by t together with the commitments shifted to match. Only the Fiat-Shamir hash (which
+// must cover the shifted commitment) can reject them; Props/C09 pok_commitments_determined /
+// blinding_commitments_determined say the equations alone cannot.
+func psBinding(r *prng.R, s *out.Sink, l int, pp *ps.PP, pk ps.PK, σ ps.BlindSignature, secret *ps.UnblindingSecret, pok ps.SigPoK, desc string) {
+	g, g0, gs, g2 := ps.VerifPPParts(pp)
+	h, _, _ := ps.VerifSecretParts(secret)
+	t := psCurve.NewZrFromInt(int64(2 + r.Intn(1000)))
+	addG1 := func(b []byte, p *math.G1) []byte {
+		x, _ := psCurve.NewG1FromBytes(b)
+		x.Add(p.Mul(t))
+		return x.Bytes()
+	}
+	addG2 := func(b []byte, p *math.G2) []byte {
+		x, _ := psCurve.NewG2FromBytes(b)
+		x.Add(p.Mul(t))
+		return x.Bytes()
+	}
+	addZr := func(b []byte) []byte { return psCurve.NewZrFromBytes(b).Plus(t).Bytes() }
+	reject := func(kind, what string, err error) {
+		s.N++
+		s.Count("binding/" + kind)
+		s.Distinct["binding|"+desc+"|"+kind+"|"+what] = struct{}{}
+		if err == nil {
+			s.Violate("C09", fmt.Sprintf("%s accepted an object whose commitments were shifted to match a shifted response (%s): the challenge does not bind that commitment", kind, what), desc)
+		}
+	}
+	// ---- the proof of knowledge ----
+	tpkBytes := remarshal(ps.ThresholdPK{TPK: pk.Bytes()})
+	var v ps.Verifier
+	if err := v.Init(psCurve, l, tpkBytes); err != nil {
+		s.Violate("C09", "Verifier.Init failed on a local key: "+err.Error(), desc)
+		return
+	}
+	if err := v.Verify(pok.Bytes()); err != nil {
+		s.Violate("C09", "an honest proof of knowledge under a local key does not verify: "+err.Error(), desc)
+		return
+	}
+	var raw ps.RawSigPok
+	asn1.Unmarshal(pok.Bytes(), &raw)
+	var psi ps.RawPoKofSignaturePoCorrectForm
+	asn1.Unmarshal(raw.Data[0], &psi)
+	hε, _ := psCurve.NewG1FromBytes(raw.Data[1])
+	for i := range psi.X {
+		p := psi
+		p.X = append([][]byte{}, psi.X...)
+		p.X[i] = addZr(p.X[i])
+		p.Gamma = addG2(p.Gamma, pk.Y[i])
+		d := append([][]byte{remarshal(p)}, raw.Data[1:]...)
+		reject("proof/Verifier.Verify", fmt.Sprintf("x[%d] + t, Gamma + t*Y[%d]", i, i), v.Verify(remarshal(ps.RawSigPok{Data: d})))
+	}
+	{
+		p := psi
+		p.Y = addZr(p.Y)
+		p.Gamma = addG2(p.Gamma, g2)
+		p.Phi = addG1(p.Phi, hε)
+		d := append([][]byte{remarshal(p)}, raw.Data[1:]...)
+		reject("proof/Verifier.Verify", "y + t, Gamma + t*g2, Phi + t*h^e", v.Verify(remarshal(ps.RawSigPok{Data: d})))
+	}
+	// ---- the request ----
+	sk, _ := ps.LocalKeyGen(*pp)
+	var rq ps.RawBlindSignature
+	asn1.Unmarshal(σ.Bytes(), &rq)
+	var pr ps.RawBlindCorrectProof
+	asn1.Unmarshal(rq.CorrectFormProof, &pr)
+	u, _ := psCurve.NewG1FromBytes(rq.U)
+	signer := func(q ps.RawBlindSignature, p ps.RawBlindCorrectProof) error {
+		q.CorrectFormProof = remarshal(p)
+		tps := &ps.TPS{Party: 1, Logger: nopLogger{}, Curve: psCurve, MessageLength: l}
+		tps.Init([]uint16{1, 2}, 2, func([]byte, bool, uint16) {})
+		if err := tps.SetShareData(remarshal(ps.StoredData{Sk: sk.Bytes(), PublicKeys: [][]byte{pk.Bytes(), pk.Bytes()}, ThresholdPK: pk.Bytes()})); err != nil {
+			return fmt.Errorf("harness: share data: %v", err)
+		}
+		_, err := tps.Sign(context.Background(), remarshal(q))
+		return err
+	}
+	if err := signer(rq, pr); err != nil {
+		// the honest request must be signable through this route, or the rejections below mean nothing
+		s.Violate("C09", "harness: the honest request is refused through the local-key route: "+err.Error(), desc)
+		return
+	}
+	cp := func() ps.RawBlindCorrectProof {
+		p := pr
+		p.X = append([][]byte{}, pr.X...)
+		p.Y = append([][]byte{}, pr.Y...)
+		p.D = append([][]byte{}, pr.D...)
+		p.F = append([][]byte{}, pr.F...)
+		return p
+	}
+	for i := range pr.X {
+		p := cp()
+		p.X[i] = addZr(p.X[i])
+		p.D[i] = addG1(p.D[i], u)
+		p.F[i] = addG1(p.F[i], g)
+		reject("request/TPS.Sign", fmt.Sprintf("x[%d] + t, d[%d] + t*u, f[%d] + t*g", i, i, i), signer(rq, p))
+		p = cp()
+		p.Y[i] = addZr(p.Y[i])
+		p.D[i] = addG1(p.D[i], h)
+		p.S = addG1(p.S, gs[i])
+		reject("request/TPS.Sign", fmt.Sprintf("y[%d] + t, d[%d] + t*h, s + t*gs[%d]", i, i, i), signer(rq, p))
+	}
+	p := cp()
+	p.Z = addZr(p.Z)
+	p.S = addG1(p.S, g0)
+	reject("request/TPS.Sign", "z + t, s + t*g0", signer(rq, p))
 }
 
 // ---- BLS ------------------------------------------------------------------------------------------------------
@@ -500,6 +609,7 @@ func blsAltered(r *prng.R, s *out.Sink, tier string) {
 			parties[i] = uint16(i + 1)
 		}
 		d := newDkgRun("bls", parties, cf.t, 0)
+		d.reorder = r.Intn(3) != 0
 		d.run(r.Fork(), parties, 60*time.Second)
 		desc := fmt.Sprintf("bls n=%d t=%d", cf.n, cf.t)
 		if d.errs[1] != nil {
